@@ -48,6 +48,14 @@ def scheduler_corpus():
         S([P('p0', [2])], [[1, False], [2, True]], unit=0.1, prec=1, t0=1),      # 0.1 + 0.1 + 0.2 on the grid
         S([P('p0', [2]), P('p1', [3]), P('p2', [7])], [[5, False], [4, False], [6, True]]),
         S([P('p0', [4]), P('p1', [4])], [[8, True]]),
+        # two processes quiet in the same pass while nothing else runs (the clock jumps), woken by the next call; and
+        # quiet together while a third process runs past the interval
+        S([P('p0', [2], {'script': [False, True]}), P('p1', [2], {'script': [False, True]})],
+          [[3, False], [6, True]]),
+        S([P('p0', [2], {'script': [False, True]}), P('p1', [3], {'script': [False, True]}), P('p2', [5])],
+          [[3, False], [7, True]]),
+        # the initial state names an undeclared variable ahead of the declared ones; defaults differ from it
+        S([P('p0', [2]), P('p1', [3])], [[6, True]], surplus=0, default_shift=3),
     ]
 
 
